@@ -713,7 +713,6 @@ func (c *Cluster) Shutdown(ctx context.Context) error {
 	// - cluster was ready (no bootstrapping error)
 	// - We are not removed already (means watchPeers() called us)
 	if c.consensus != nil && c.config.LeaveOnShutdown && c.readyB && !c.removed {
-		c.removed = true
 		_, err := c.consensus.Peers(ctx)
 		if err == nil {
 			// best effort
@@ -721,6 +720,10 @@ func (c *Cluster) Shutdown(ctx context.Context) error {
 			err := c.consensus.RmPeer(ctx, c.id)
 			if err != nil {
 				logger.Error("leaving cluster: " + err.Error())
+			} else {
+				// Only a peer that actually left discards
+				// its consensus state below.
+				c.removed = true
 			}
 		}
 	}
